@@ -68,8 +68,9 @@ def _follow_children(ctx, cls):
         if len(rets) == 1:
             v = rets[0].value
             if isinstance(v, ast.Name):
+                vname = v.id
                 for n in own_nodes(fn):
-                    if isinstance(n, ast.Assign) and any(isinstance(t, ast.Name) and t.id == v.id for t in n.targets):
+                    if isinstance(n, ast.Assign) and any(isinstance(t, ast.Name) and t.id == vname for t in n.targets):
                         v2 = n.value
                         if isinstance(v2, ast.Attribute) and isinstance(v2.value, ast.Name) and v2.value.id == "self":
                             v = v2
